@@ -24,12 +24,15 @@ def configs(ctx):
     return [('crash_d3', speca.constants(MaxDepth=3, MaxId=3, MaxCount=2, MaxDeliver=3, Params={'p1'}, Meas={'m1'}, Vals={'v1'}, Recycle='always',
                                          Kinds=CK), 0.06),
             ('crash_suggest_d3', speca.constants(MaxDepth=3, MaxId=4, MaxCount=3, MaxDeliver=3, Params={'p1'}, Meas={'m1'}, Recycle='always', AlgoMeta=True,
-                                                 Kinds={'CreateStudy', 'SuggestTrials', 'CreateTrial'}), 0.02)]
+                                                 Kinds={'CreateStudy', 'SuggestTrials', 'CreateTrial'}), 0.02),
+            # repeated early-stopping checks: a finished operation is recycled (passes through ACTIVE) even when the verdict stays
+            ('crash_es_d4', speca.constants(MaxDepth=4, MaxId=1, MaxCount=1, MaxDeliver=1, Clients={'w1'}, Params={'p1'}, Meas={'m1'}, Vals={'v1'}, Recycle='always',
+                                            Kinds={'CreateStudy', 'SuggestTrials', 'CheckEarlyStopping'}), 0.5)]
   return [('crash_d3', speca.constants(MaxDepth=3, MaxId=3, MaxCount=2, MaxDeliver=3, Params={'p1'}, Meas={'m1'}, Vals={'v1'}, Recycle='always', Kinds=CK), 1.0),
           ('crash_d4', speca.constants(MaxDepth=4, MaxId=3, MaxCount=2, MaxDeliver=2, Clients={'w1'}, Params={'p1'}, Meas={'m1'}, Vals={'v1'}, Recycle='always',
                                        Kinds=CK - {'StopTrial', 'SetStudyState'}), 0.15),
           ('crash_suggest_d4', speca.constants(MaxDepth=4, MaxId=4, MaxCount=3, MaxDeliver=3, Params={'p1'}, Meas={'m1'}, Recycle='always', AlgoMeta=True,
-                                               Kinds={'CreateStudy', 'SuggestTrials', 'CreateTrial', 'CompleteTrial'}), 0.2)]
+                                               Kinds={'CreateStudy', 'SuggestTrials', 'CreateTrial', 'CompleteTrial'}), 0.03)]
 
 
 def tlc_crash(name, consts, d):
